@@ -37,6 +37,79 @@ func Failf(sig, format string, args ...any) *Failure {
 	return &Failure{Sig: sig, Msg: fmt.Sprintf(format, args...)}
 }
 
+// Concurrent runs every case alone first (a failure there is returned as it is: it is not about
+// concurrency), then all of them at the same time, each on its own goroutine, rounds times. A
+// failure or panic that only appears then is reported with the signature prefix "concurrent/".
+// run must be a pure function of its case (fresh Obs per call; their statistics are dropped).
+func Concurrent[C any](cases []C, rounds int, run func(C, *Obs) *Failure) *Failure {
+	for i, c := range cases {
+		if f := run(c, &Obs{}); f != nil {
+			f.Msg = fmt.Sprintf("input %d, called alone: %s", i, f.Msg)
+			return f
+		}
+	}
+	fails := make([]*Failure, len(cases))
+	start := make(chan struct{})
+	done := make(chan struct{}, len(cases))
+	for i := range cases {
+		go func(i int) {
+			defer func() {
+				if r := recover(); r != nil {
+					fails[i] = Failf("concurrent/panic", "input %d of %d concurrent callers panicked: %v (every input passes when called alone)", i, len(cases), r)
+				}
+				done <- struct{}{}
+			}()
+			<-start
+			for r := 0; r < rounds && fails[i] == nil; r++ {
+				if f := run(cases[i], &Obs{}); f != nil {
+					fails[i] = Failf("concurrent/"+f.Sig, "input %d of %d concurrent callers, round %d (every input passes when called alone): %s", i, len(cases), r, f.Msg)
+				}
+			}
+		}(i)
+	}
+	close(start)
+	for range cases {
+		<-done
+	}
+	for _, f := range fails {
+		if f != nil {
+			return f
+		}
+	}
+	return nil
+}
+
+// Conc is a generated bundle of independent cases of one sub-check that are run at the same time
+// (sub-check "concurrent-callers": writers, readers and pure functions must not share scratch
+// state between calls; node graphs evaluate producers concurrently).
+type Conc[C any] struct {
+	Cases  []C
+	Rounds int
+}
+
+func GenConc[C any](gen func(*rapid.T) C) func(*rapid.T) Conc[C] {
+	return func(t *rapid.T) Conc[C] {
+		k := rapid.IntRange(2, 5).Draw(t, "callers")
+		c := Conc[C]{Rounds: rapid.IntRange(2, 5).Draw(t, "rounds")}
+		for i := 0; i < k; i++ {
+			c.Cases = append(c.Cases, gen(t))
+		}
+		return c
+	}
+}
+
+func RunConc[C any](run func(C, *Obs) *Failure) func(Conc[C], *Obs) *Failure {
+	return func(c Conc[C], o *Obs) *Failure {
+		if len(c.Cases) < 2 || len(c.Cases) > 16 || c.Rounds < 1 || c.Rounds > 64 {
+			o.Class("skipped/outside-domain")
+			return nil
+		}
+		o.Class(fmt.Sprintf("concurrent/callers=%d", len(c.Cases)))
+		o.NonTrivial()
+		return Concurrent(c.Cases, c.Rounds, run)
+	}
+}
+
 // Obs collects what one executed case looked like.
 type Obs struct {
 	classes    []string
